@@ -36,6 +36,16 @@ def sym_bloom(ctx, est, fpr, tag="", hash_function=None, cls=None):
     """a BloomFilter built by the real constructor whose bit array and element count are arbitrary"""
     from probables import BloomFilter
     bf = (cls or BloomFilter)(est_elements=est, false_positive_rate=fpr, hash_function=hash_function)
+    if not ctx.sym:
+        # replay: the state is RE-CREATED THROUGH THE PUBLIC API (one add_alt per set bit, the documented elements_added
+        # setter); a model state this cannot reproduce is unreachable and the replay ends without confirming anything
+        want = [ctx.bits(f"{tag}cell{j}", 8) for j in range(bf.bloom_length)]
+        for p in range(bf.number_bits):
+            if (want[p // 8] >> (p % 8)) & 1:
+                bf.add_alt([p] * bf.number_hashes)
+        bf.elements_added = ctx.int(f"{tag}added", 0, 2 ** 64 - 2)
+        ctx.assume(list(bf._bloom[: bf.bloom_length]) == want)
+        return bf
     for j in range(bf.bloom_length):
         bf._bloom[j] = ctx.bits(f"{tag}cell{j}", 8)
     # padding bits of the last byte: zero in every reachable state (k % m never addresses them)
